@@ -252,7 +252,17 @@ class KaniSession:
     def replay(self, harness, module_file, prop, failed_descs):
         """Returns (reproduced: bool|None, replay_path, note)."""
         tests = self.playback_tests(harness)
-        cand = [t for t in tests if t[0] != "cover"]
+        # one test function per distinct counterexample (the same counterexample can be listed under several failed checks);
+        # CBMC's NaN checks are not property violations (ignored everywhere) -- their counterexamples are only kept when they are also
+        # the counterexample of a real failure
+        cand, seen = [], set()
+        for t in sorted(tests, key=lambda t: t[0] == "NaN"):
+            if t[0] == "cover" or t[2] in seen:
+                continue
+            if t[0] == "NaN":
+                continue
+            seen.add(t[2])
+            cand.append(t)
         if not cand:
             return None, None, "Kani produced no concrete playback test for the failing check"
         dev, devlog = self.run_playback(module_file, cand, release=False)
